@@ -35,6 +35,7 @@ def register(R):
                  ("the-returned-count-is-the-current-queue-length (computed after the last suspension)", f"result == len({Q})", "C16"),
                  ("condition-released", "not self._queue_condition.held", "C16")],
         raises={"BaseException": [("datagram-stays-queued-if-the-notification-is-cancelled", "not self._queue_condition.held", "C16"),
+                                  ("queueing-fails-only-by-cancellation (never with an Exception of its own)", "not typeof(exc, 'Exception')", "C17"),
                                   ("fails-only-while-notifying-an-existing-task", f"not isnone(old({stt}))", "C16"),
                                   ("A-still-holds-when-the-notification-is-cancelled (the others keep it while this task is suspended)", f"implies(isnone({stt}), len({Q}) == 0)", "C16")]},
         modifies=[Q, stt, "self._queue_condition.held", "ghost.suspensions"],
@@ -180,13 +181,17 @@ def register_handler(R):
                 "$backend": "AsyncBackend", "$datagram_received_cb": "obj", "$task_group": "TaskGroupModel", "$default_context": "ContextModel"},
         requires=[("A holds for the cached client entry", "implies(not client_data_cache.missing and isnone(client_data_cache.entry._ClientData__state), len(client_data_cache.entry._datagram_queue.items) == 0)")],
         ensures=[("A: this client has a task whenever datagrams are queued", A, "C16")],
-        raises={"BaseException": [("A: this client has a task whenever datagrams are queued", A, "C16")]},
+        raises={"BaseException": [("A: this client has a task whenever datagrams are queued", A, "C16"),
+                                  ("the-listener's-per-datagram-callback-never-fails-on-its-own (an Exception leaves it only if the handler generator itself raised it): "
+                                   "a bookkeeping error here would take the whole server down",
+                                   "implies(typeof(exc, 'Exception'), ghost.handler_failures > old(ghost.handler_failures))", "C17")]},
         modifies=["client_data_cache.entry", "client_data_cache.missing", "client_ctx_cache.entry", "client_ctx_cache.missing", "ghost.tasks_started", "ghost.suspensions", "ghost.delivered", "ghost.live_gens", "ghost.last_timeout",
+                  "ghost.handler_failures",
                   "client_data_cache.entry._ClientData__state", "client_data_cache.entry._datagram_queue.items", "client_data_cache.entry._queue_condition.held"],
         env={"atomic_inv": [("A at every suspension point of the handler (no await between queueing a datagram for an idle client and starting its task)", A, "C16")],
              "rely_havoc": ["?client_data._datagram_queue.items", "?client_data._ClientData__state"],
              "rely_inv": [A, f"implies(bound('client_data'), isnone({cs}) or {cs} == {PENDING} or {cs} == {RUNNING})"],
              "call_hints": {"start_soon": [("the-client-is-marked-pending-BEFORE-its-task-is-started (eager task factories run the task inside start_soon())",
                                             f"pre({cs}) == {PENDING}", "C16 C17")]}},
-        tags="C16",
+        tags="C16 C17",
     )
